@@ -503,6 +503,8 @@ def is_real(v):
 def binop(ex, op, l, r, inplace=False):
     if is_num(l) and is_num(r):
         return num_binop(ex, op, l, r)
+    if isinstance(l, Missing) or isinstance(r, Missing):
+        raise Unsupported('operation on %s' % ((l if isinstance(l, Missing) else r).why,))
     if isinstance(op, ast.Add):
         if isinstance(l, SBytes) and isinstance(r, SBytes):
             if inplace and l.mutable:
@@ -546,6 +548,13 @@ def binop(ex, op, l, r, inplace=False):
             raise Unsupported('bytes * symbolic')
         if isinstance(l, SList) and isinstance(r, int):
             return SList(l.items * r, l.kind)
+        if isinstance(r, SList) and isinstance(l, SInt):
+            l, r = r, l
+        if isinstance(l, SList) and isinstance(r, SInt):
+            for n in range(0, 17):
+                if ex.branch(mk_bool(r.t == n if n else r.t <= 0)):
+                    return SList(l.items * n, l.kind)
+            raise Unsupported('list repeated more than 16 times (symbolic count)')
         if isinstance(l, str) and isinstance(r, int):
             return l * r
         if isinstance(l, tuple) and isinstance(r, int):
@@ -729,6 +738,13 @@ def num_binop(ex, op, l, r):
             if ex.branch(mk_bool(zi(r) < 0)):
                 raise Unsupported('negative exponent')
             return pow2(ex, r)
+        if isinstance(l, int) and l > 0 and isinstance(r, SInt):
+            if ex.branch(mk_bool(zi(r) < 0)):
+                raise Unsupported('negative exponent')
+            t = z3.Int(ex.fresh_name('pow!unk'))
+            for j in range(31, -1, -1):
+                t = z3.If(r.t == j, z3.IntVal(l ** j), t)
+            return mk_int(t)
         if isinstance(r, int) and 0 <= r <= 4:
             t = z3.IntVal(1)
             for _ in range(r):
